@@ -222,6 +222,31 @@ def check_rle(vals, num):
     elif got != canon:
         flag('create_rle_differs', 'create_rle() gives runs %r, add() gives %r' % (got, canon))
 
+    # ... and so does create_rle() given the values as a list, as a tuple, or - when they are an integer progression (or
+    # nothing at all) - as the range object that denotes them
+    forms = [('list', lambda: list(vals)), ('tuple', lambda: tuple(vals))]
+    if not isf and all(isinstance(v, int) and not isinstance(v, bool) for v in vals):
+        if n == 0:
+            forms += [('range(0)', lambda: range(0)), ('range(1, 1)', lambda: range(1, 1)), ('range(10, 0)', lambda: range(10, 0)),
+                      ('range(0, 5, -1)', lambda: range(0, 5, -1))]
+        elif n == 1:
+            forms += [('range(v, v + 1)', lambda: range(vals[0], vals[0] + 1)), ('range(v, v - 3, -7)', lambda: range(vals[0], vals[0] - 3, -7))]
+        else:
+            step = vals[1] - vals[0]
+            if step != 0 and all(b - a == step for a, b in zip(vals, vals[1:])):
+                forms += [('range(first, last + step, step)', lambda: range(vals[0], vals[-1] + step, step))]
+    for fname, mk in forms:
+        if n and fname.startswith('range'):
+            assert list(mk()) == vals, (fname, vals)
+        ok, got = _call(lambda: (lambda r: (_canon(r), r.num_values(), list(r.values()), r.first() if n else None, r.last() if n else None))(Rle.create_rle(mk())))
+        if not ok:
+            if not (isinstance(got, AssertionError) and zero_runs):
+                flag('create_rle_raise', 'create_rle(%s) raised %s' % (fname, _exc(got)), exc=type(got).__name__, form=fname.split('(')[0])
+        elif got[0] != canon or got[1] != n or len(got[2]) != n or not all(same(a, b) for a, b in zip(got[2], vals)) \
+                or (n and not (same(got[3], vals[0]) and same(got[4], vals[-1]))):
+            flag('create_rle_differs', 'create_rle(%s) for %r gives runs %r, %d values %r; add() gives runs %r'
+                 % (fname, vals, got[0], got[1], got[2], canon), form=fname.split('(')[0])
+
     # largest stored value not exceeding a query, ascending histories
     if n and all(a <= b for a, b in zip(vals, vals[1:])):
         d = FLT_DELTA if isf else 1
